@@ -186,6 +186,17 @@ def build(src, paths):
         elif kind == 'enum':
             p = enum.IntEnum('Field', {'HERE': p}).HERE
         s.pos = p
+    if src.get('after') and src['cls'] in util.MUTABLE:
+        # the object goes on being used after its position was set: changed in place, or given a new value through a property
+        a = src['after']
+        if a[0] == 'prop':
+            try:
+                setattr(s, a[1], a[2])
+            except ValueError:
+                pass            # refused (no length to go by, lsb0 and exp-Golomb ...): the object stays as it is and is printed all the same
+        else:
+            mutate(s, a)
+        bits = B(s)
     return s, bits
 
 
@@ -541,6 +552,13 @@ def gen_mut(rng):
     return [op]
 
 
+def gen_after(rng):
+    if rng.random() < 0.5:
+        return gen_mut(rng)
+    return ['prop'] + rng.choice([['uint8', 3], ['u8', 200], ['int4', -1], ['hex8', 'a5'], ['hex', 'f'], ['bin', '1'], ['bin3', '101'], ['bytes1', b'a'], ['float16', 0.5], ['uint', 1],
+                                  ['bool', True], ['uintle16', 513], ['bits', '0b1'], ['oct', '7'], ['ue', 3]])
+
+
 def gen_src(rng, L, allow_file=True, p_file=0.15, cls=None):
     cls = cls or rng.choice(util.CLASS_NAMES)
     pos = None
@@ -569,8 +587,13 @@ def gen_src(rng, L, allow_file=True, p_file=0.15, cls=None):
             src['handle'] = True
         if cls in util.MUTABLE and rng.random() < 0.6:
             src['mut'] = gen_mut(rng)
+        if cls in util.MUTABLE and rng.random() < 0.3:
+            src['after'] = gen_after(rng)
         return src
-    return {'via': 'mem', 'cls': cls, 'bits': util.content(rng, L), 'pos': pos, 'poskind': poskind}
+    src = {'via': 'mem', 'cls': cls, 'bits': util.content(rng, L), 'pos': pos, 'poskind': poskind}
+    if cls in util.MUTABLE and rng.random() < 0.25:
+        src['after'] = gen_after(rng)
+    return src
 
 
 PP_LENGTHS = list(range(0, 49)) * 3 + [60, 63, 64, 65, 72, 96, 100, 120, 127, 128, 129, 144, 192, 200, 255, 256, 257, 300,
